@@ -164,6 +164,57 @@ theorem bartlett_sum_bound {width : ℕ} (hw : 2 ≤ width) :
     rw [sub_sub_cancel_left, abs_neg, abs_of_pos (div_pos one_pos hpos), div_le_div_iff₀ hpos (by linarith)]
     nlinarith
 
+/-- **"sum to 1 up to O(1/width)" at full strength**: for every class and *every* width ≥ 1
+(width 1 gives `[1/c]`; width 2 gives `[0,0]` for Hann/Blackman/Bartlett; Blackman width 3 gives `1/0.84`). -/
+theorem window_sum_bound (k : Kind) {width : ℕ} (hw : 1 ≤ width) :
+    |(window (α := ℝ) k width).sum - 1| ≤ 2 / (width : ℝ) := by
+  have hwpos : (0:ℝ) < width := by exact_mod_cast hw
+  rcases Nat.lt_or_ge width 2 with h | h2
+  · -- width = 1
+    have : width = 1 := by omega
+    subst this
+    rw [Win.window_one]
+    cases k <;>
+      simp only [normOf, bartlett_norm, blackman_norm, hamming_norm, hann_norm, List.sum_cons, List.sum_nil] <;>
+      norm_num [abs_le]
+  · rcases Nat.lt_or_ge width 3 with h | h3
+    · -- width = 2
+      have : width = 2 := by omega
+      subst this
+      have nf := norms_closed_form (width := 2) (le_refl 2)
+      have e1 : (∑ i ∈ Finset.range 2, npSample (α := ℝ) .hanning 2 i) = 0 := Win.shape_sum_two.1
+      have e2 : (∑ i ∈ Finset.range 2, npSample (α := ℝ) .hamming 2 i) = 0.16 := Win.shape_sum_two.2.1
+      have e3 : (∑ i ∈ Finset.range 2, npSample (α := ℝ) .blackman 2 i) = 0 := Win.shape_sum_two.2.2
+      cases k
+      · exact bartlett_sum_bound (le_refl 2)
+      · rw [Win.window_sum_eq _ (le_refl 2), nf.2.1]
+        show |(∑ i ∈ Finset.range 2, npSample (α := ℝ) .blackman 2 i) / _ - 1| ≤ _
+        rw [e3]; norm_num
+      · rw [Win.window_sum_eq _ (le_refl 2), nf.2.2.1]
+        show |(∑ i ∈ Finset.range 2, npSample (α := ℝ) .hamming 2 i) / _ - 1| ≤ _
+        rw [e2]; norm_num [abs_le]
+      · rw [Win.window_sum_eq _ (le_refl 2), nf.2.2.2]
+        show |(∑ i ∈ Finset.range 2, npSample (α := ℝ) .hanning 2 i) / _ - 1| ≤ _
+        rw [e1]; norm_num
+    · have h3' : (3:ℝ) ≤ width := by exact_mod_cast h3
+      have hpos2 : (0:ℝ) ≤ 2 / (width : ℝ) := by positivity
+      cases k
+      · exact bartlett_sum_bound h2
+      · rcases Nat.lt_or_ge width 4 with h | h4
+        · have : width = 3 := by omega
+          subst this
+          have nf := norms_closed_form (width := 3) (by norm_num)
+          have e : (∑ i ∈ Finset.range 3, npSample (α := ℝ) .blackman 3 i) = 1 := Win.blackman_shape_sum_three
+          rw [Win.window_sum_eq _ (by norm_num), nf.2.1]
+          show |(∑ i ∈ Finset.range 3, npSample (α := ℝ) .blackman 3 i) / _ - 1| ≤ _
+          rw [e]; norm_num [abs_le]
+        · rw [blackman_sum h4]; simpa using hpos2
+      · have := hamming_sum_bound h3
+        have h12 : 1 / (width : ℝ) ≤ 2 / (width : ℝ) := by
+          rw [div_le_div_iff_of_pos_right hwpos]; norm_num
+        linarith
+      · rw [hann_sum h3]; simpa using hpos2
+
 example : (window (α := ℝ) .hann 400).sum = 1 := hann_sum (by norm_num)
 example : (window (α := ℝ) .blackman 4).sum = 1 := blackman_sum (by norm_num)
 example : (window (α := ℝ) .bartlett 4).sum = 1 - 1 / 9 := by
@@ -282,6 +333,30 @@ theorem circshift_spec (filt : List ℂ) (shift : ℤ) (start : ℕ) (dft : Opti
   simp only [hrun, shiftRed]
   rw [idftSeg_shift _ hD, idftSeg_emod _ hD]
 
+open Circ in
+/-- The documented one-liner `circshift_fourier(X, shift)` on a full spectrum, in textbook form:
+`idft(out)[n] = idft(X)[(n − shift) mod D]` with `idft Y n = (1/D) Σ_{k<D} Y[k] e^{2πikn/D}`. -/
+theorem circshift_spec_fullband (X : List ℂ) (shift : ℤ) (copy c128 : Bool) (r : Result ℂ)
+    (hr : run mulPhaseC X shift 0 none copy c128 = .ok r) (n : ℤ) :
+    idft r.out n = idft X ((n - shift) % (X.length : ℤ)) := by
+  have hlen := circshift_out_len _ _ _ _ _ _ _ r hr
+  have hD : X.length ≠ 0 := by
+    intro h0
+    unfold run plan at hr
+    simp [dftSize, h0] at hr
+  have hp : plan X.length shift 0 none = .ok ⟨X.length, shiftRed shift X.length, bins X.length 0 X.length⟩ := by
+    unfold plan; simp [dftSize, hD]
+  have := circshift_spec X shift 0 none copy c128 _ r hp hr n
+  simp only [] at this
+  rw [idftSeg_fullband] at this
+  rw [← this, ← hlen, idftSeg_fullband]
+
+/-- the `(cos θ, sin θ)` pair arithmetic the driver runs at `Float` is, at `ℝ`, multiplication by the
+complex exponential `circshift_spec` is about -/
+theorem circshift_model_phase (x : ℂ) (s : ℤ) (D k : ℕ) :
+    (⟨(mulPhasePair (α := ℝ) (x.re, x.im) s D k).1, (mulPhasePair (α := ℝ) (x.re, x.im) s D k).2⟩ : ℂ)
+      = Circ.mulPhaseC x s D k := Circ.mulPhasePair_real_eq x s D k
+
 /-- the documented default: `dft_size=None` behaves exactly as `dft_size = start_idx + len(filt)` -/
 theorem circshift_default_size {β : Type} (f : β → ℤ → ℕ → ℕ → β) (filt : List β) (shift : ℤ) (start : ℕ)
     (copy c128 : Bool) :
@@ -339,6 +414,8 @@ theorem circshift_out_len {β : Type} (f : β → ℤ → ℕ → ℕ → β) (f
     have hlen := (circshift_plan_bounds _ _ _ _ p hp).2.2.1
     split_ifs at hr <;> cases hr <;> simp [hlen]
 
+example : ∃ r, run Circ.mulPhaseC [1, Complex.I, 2] (-7) 2 none true true = .ok r := ⟨_, rfl⟩
+example : ∃ r, run Circ.mulPhaseC [1, Complex.I, 2] 5 0 none false true = .ok r ∧ r.sameObject = true := ⟨_, rfl, rfl⟩
 -- non-vacuity: a defaulted call on a 3-bin segment starting at bin 2, shift −7 (so D = 5, s' = 3)
 example : plan 3 (-7) 2 none = .ok ⟨5, 3, [2, 3, 4]⟩ := by decide
 example : plan 3 12 4 (some 5) = .ok ⟨5, 2, [4, 0, 1]⟩ := by decide
